@@ -36,7 +36,7 @@ import (
 func TestMain(m *testing.M) { hx.Main(m) }
 
 type c20Spec struct {
-	Kind  string `json:"kind"`            // recv | lock | send | dur | reject | ival
+	Kind  string `json:"kind"`            // recv | lock | send | dur | reject | ival | given
 	Proto string `json:"proto,omitempty"` // macat's protocol option
 	Tr    string `json:"tr,omitempty"`    // tcp | ipc
 	Bind  bool   `json:"bind,omitempty"`  // macat binds and the harness dials (else macat connects)
@@ -52,8 +52,8 @@ type c20Spec struct {
 	DForm int    `json:"dform,omitempty"` // spelling of the data option
 	N     int    `json:"n,omitempty"`     // --count
 	IForm int    `json:"iform,omitempty"` // spelling of the zero interval
-	Var   string `json:"var,omitempty"`   // dur: which option; reject: which combination
-	Val   string `json:"val,omitempty"`   // dur: the duration text
+	Var   string `json:"var,omitempty"`   // dur: which option; reject: which combination; given: empty | dash
+	Val   string `json:"val,omitempty"`   // dur: the duration text; given/dash: the option look-alike
 	ValNs int64  `json:"val_ns,omitempty"`
 	Ans   []bool `json:"ans,omitempty"` // ival: which of macat's transmissions the harness peer answers
 	RT    string `json:"rt,omitempty"`  // ival: --recv-timeout text ("" = none given)
@@ -199,6 +199,10 @@ func TestC20(t *testing.T) {
 	for i := 0; i < r.Pick(25, 1500); i++ {
 		add(ivalSpec(rnd, i, off, r.Thorough(), lens))
 	}
+	// payloads that are given but empty, or that look like options (appended last again)
+	for _, sp := range givenSpecs(rnd, off, r.Pick(27, 1800), r.Pick(30, 2400), r.Pick(5, 400), r.Thorough(), lens) {
+		add(sp)
+	}
 	r.Run(cases, func(c *mon.Case) {
 		defer func() {
 			if x := recover(); x != nil {
@@ -225,6 +229,8 @@ func TestC20(t *testing.T) {
 			runReject(c, sp)
 		case "ival":
 			runIval(c, sp)
+		case "given":
+			runGiven(c, sp)
 		}
 	})
 }
